@@ -87,6 +87,42 @@ def rendezvous_user(case_graph, nodes_A, workers, scheduler, timeout=12.0):
     return state["peak"], target
 
 
+def wide_fan_cases(ctx, replay=None):
+    """Hundreds of independent ready calls, a few workers, and ONE call that blocks: the other workers must get through everything
+    else meanwhile.  The first call to start waits until every other call has started (or four seconds have passed): whatever has
+    not started by then was ready, unblocked and waiting while workers had nothing else to do."""
+    import threading
+    viol, done = [], 0
+    cases = [replay["fan_case"]] if replay else [[260, 3, "default"], [300, 2, "random"], [130, 4, "cheap"]]
+    for n, w, sched in cases:
+        g = ee.build_graph({"n": n, "nodes": list(range(n)), "edges": []})
+        lock = threading.Lock()
+        state = {"started": 0, "first": None, "stuck": None}
+        all_started = threading.Event()
+
+        def fn(node):
+            with lock:
+                state["started"] += 1
+                first = state["first"] is None
+                if first:
+                    state["first"] = node
+                if state["started"] == n:
+                    all_started.set()
+            if first:
+                if not all_started.wait(4.0):
+                    with lock:
+                        state["stuck"] = n - state["started"]
+
+        eng.run_function_on_graph(g, fn, worker_count=w, max_errors=0, scheduler=sched)
+        done += 1
+        if state["stuck"]:
+            viol.append({"property": "C10", "what": f"{n} independent ready calls, max_workers={w}, scheduler={sched}: while one call was blocked, "
+                         f"{state['stuck']} ready calls had not started after 4 s although the other workers had nothing else to do",
+                         "replay_fn": "wide_fan", "fan_case": [n, w, sched]})
+            break
+    return {"violations": viol, "disagreements": [], "coverage": {"wide_fan_runs": done}}
+
+
 def parallel_runs(ctx, replay=None):
     """`whenever at least max_workers independent calls are ready that many do run in parallel` and never more."""
     if replay is not None:
@@ -200,12 +236,19 @@ def extras(ctx, replay=None):
         if replay.get("replay_fn") == "stale_check":
             r = stale_check_runs(ctx, replay=replay)
             return r["violations"][0]["what"] if r["violations"] else None
+        if replay.get("replay_fn") == "wide_fan":
+            r = wide_fan_cases(ctx, replay=replay)
+            return r["violations"][0]["what"] if r["violations"] else None
         return parallel_runs(ctx, replay=replay)
     a = parallel_runs(ctx)
     if not a["violations"]:
         sc_ = stale_check_runs(ctx)
         a["violations"] += sc_["violations"]
         a["coverage"].update(sc_["coverage"])
+    if not a["violations"]:
+        wf = wide_fan_cases(ctx)
+        a["violations"] += wf["violations"]
+        a["coverage"].update(wf["coverage"])
     b = retry_corr.retry_diff(ctx)
     cov = dict(a.get("coverage", {}))
     cov.update({"retry_" + k: v for k, v in b.get("coverage", {}).items() if k not in ("samples", "rule")})
